@@ -96,6 +96,19 @@ Theorem C16_gen_elf_prims_standard :
 Proof. vm_compute. reflexivity. Qed.
 Print Assumptions C16_gen_elf_prims_standard.
 
+(* the size the library REPORTS for the initial length (initial_length_field_size, used to step from
+   unit to unit) is the size the decoder consumes: 4 / 12, for every configuration *)
+Theorem C16_gen_initlen_field_size_standard :
+  gen_initlen_field_size = map (fun c => (c, spec_initlen_field_size (snd (fst c)))) all_dwarf_cfgs.
+Proof. vm_compute. reflexivity. Qed.
+Print Assumptions C16_gen_initlen_field_size_standard.
+
+Theorem C16_initlen_reported_size_is_consumed : forall le len is64,
+  initial_length_wf len is64 = true ->
+  Z.of_nat (List.length (initial_length_encode le len is64)) = spec_initlen_field_size (if is64 then 64 else 32).
+Proof. exact initial_length_encode_size. Qed.
+Print Assumptions C16_initlen_reported_size_is_consumed.
+
 (* fixed-width integers, both byte orders, any width *)
 Theorem C16_uint_valid : forall le n v tail,
   0 <= v < 2 ^ (8 * Z.of_nat n) ->
